@@ -176,14 +176,15 @@ fn c19_observe_flag() {
 }
 
 // ---------------------------------------------------------------------------------------------
-// C19: path accessors on concrete path strings (paths are enumerated, not symbolic)
+// C19: path accessors on concrete path strings (paths are enumerated, not symbolic). Setter and
+// getters are decided in separate queries that meet at the raw Uri-Path option values: one query
+// with set_path, the raw check, get_path and get_path_as_vec did not finish in 25 minutes.
 // ---------------------------------------------------------------------------------------------
-macro_rules! c19_path {
-    ($name:ident, $path:expr, $joined:expr, [$($seg:expr),*]) => {
+macro_rules! c19_set_path {
+    ($name:ident, $path:expr, [$($seg:expr),*]) => {
         #[kani::proof]
         #[kani::unwind(14)]
         #[kani::stub(core::fmt::write, crate::verif_harness::stub_write)]
-        #[kani::stub(core::str::from_utf8, crate::verif_harness::model_from_utf8)]
         fn $name() {
             let mut req: CoapRequest<u8> = CoapRequest::new();
             // whatever was there before: nothing, or an older segment with a symbolic byte
@@ -193,7 +194,6 @@ macro_rules! c19_path {
             }
             req.set_path($path);
             let segs: &[&str] = &[$($seg),*];
-            // raw state
             match req.message.get_option(CoapOption::UriPath) {
                 Some(list) => {
                     assert!(list.len() == segs.len(), "C19: set_path stores one Uri-Path value per segment, replacing what was there");
@@ -205,20 +205,6 @@ macro_rules! c19_path {
                 }
                 None => assert!(segs.is_empty() && !had_old, "C19: set_path stores the segments"),
             }
-            // getters
-            let got = req.get_path();
-            assert!(got.as_bytes() == $joined.as_bytes(), "C19: get_path shows what set_path stored");
-            match req.get_path_as_vec() {
-                Ok(v) => {
-                    assert!(v.len() == segs.len(), "C19: get_path_as_vec shows the stored segments");
-                    let mut k = 0;
-                    while k < segs.len() {
-                        assert!(v[k].as_bytes() == segs[k].as_bytes(), "C19: get_path_as_vec shows the stored segments");
-                        k += 1;
-                    }
-                }
-                Err(_) => assert!(false, "C19: a path set from a string reads back"),
-            }
             kani::cover!(had_old, "an older path is replaced");
             kani::cover!(!had_old, "fresh request");
             core::mem::forget(req);
@@ -226,30 +212,81 @@ macro_rules! c19_path {
     };
 }
 
-//@ props=C19 tier=quick timeout=1500 mem=16 cap=2 name=c19_path_ab
-//@ functions=CoapRequest::set_path, CoapRequest::get_path, CoapRequest::get_path_as_vec, Packet::clear_option, Packet::add_option
+macro_rules! c19_get_path {
+    ($name:ident, $joined:expr, [$($seg:expr),*]) => {
+        #[kani::proof]
+        #[kani::unwind(14)]
+        #[kani::stub(core::fmt::write, crate::verif_harness::stub_write)]
+        #[kani::stub(core::str::from_utf8, crate::verif_harness::model_from_utf8)]
+        fn $name() {
+            let mut req: CoapRequest<u8> = CoapRequest::new();
+            let segs: &[&str] = &[$($seg),*];
+            let mut k = 0;
+            while k < segs.len() {
+                req.message.add_option(CoapOption::UriPath, segs[k].as_bytes().to_vec());
+                k += 1;
+            }
+            // an unrelated option with symbolic content must not leak into the path
+            req.message.add_option(CoapOption::UriQuery, vec![kani::any::<u8>() & 0x7F]);
+            let which: bool = kani::any();
+            if which {
+                let got = req.get_path();
+                assert!(got.as_bytes() == $joined.as_bytes(), "C19: get_path shows the stored Uri-Path segments joined by '/'");
+                kani::cover!(true, "get_path");
+            } else {
+                match req.get_path_as_vec() {
+                    Ok(v) => {
+                        assert!(v.len() == segs.len(), "C19: get_path_as_vec shows the stored segments");
+                        let mut k = 0;
+                        while k < segs.len() {
+                            assert!(v[k].as_bytes() == segs[k].as_bytes(), "C19: get_path_as_vec shows the stored segments");
+                            k += 1;
+                        }
+                    }
+                    Err(_) => assert!(false, "C19: valid UTF-8 segments read back"),
+                }
+                kani::cover!(true, "get_path_as_vec");
+            }
+            core::mem::forget(req);
+        }
+    };
+}
+
+//@ props=C19 tier=quick timeout=1500 mem=16 cap=2 name=c19_set_path_ab
+//@ functions=CoapRequest::set_path, Packet::clear_option, Packet::add_option
 //@ bounds=path string "a/b" (concrete); pre-state: no Uri-Path or one older one-byte segment (symbolic)
-//@ what=set_path replaces the Uri-Path values by the segments; get_path / get_path_as_vec / the raw options show the same path
-//@ assumes=core::str::from_utf8 replaced by the byte-loop RFC 3629 model; path strings are enumerated, not symbolic
-c19_path!(c19_path_ab, "a/b", "a/b", ["a", "b"]);
+//@ what=set_path replaces the Uri-Path values by the segments of the string
+c19_set_path!(c19_set_path_ab, "a/b", ["a", "b"]);
 
-//@ props=C19 tier=quick timeout=1500 mem=16 cap=2 name=c19_path_slashes
-//@ functions=CoapRequest::set_path, CoapRequest::get_path, CoapRequest::get_path_as_vec
-//@ bounds=path string "/a//" (concrete: leading slash, empty middle and trailing segments); pre-state as c19_path_ab
+//@ props=C19 tier=quick timeout=1500 mem=16 cap=2 name=c19_set_path_slashes
+//@ functions=CoapRequest::set_path
+//@ bounds=path string "/a//" (concrete: leading slash, empty middle and trailing segments); pre-state as c19_set_path_ab
 //@ what=one leading slash is dropped, every other segment - empty ones included - is kept in order
-//@ assumes=core::str::from_utf8 replaced by the byte-loop RFC 3629 model
-c19_path!(c19_path_slashes, "/a//", "a//", ["a", "", ""]);
+c19_set_path!(c19_set_path_slashes, "/a//", ["a", "", ""]);
 
-//@ props=C19 tier=thorough timeout=1500 mem=16 cap=2 name=c19_path_empty
-//@ functions=CoapRequest::set_path, CoapRequest::get_path, CoapRequest::get_path_as_vec
-//@ bounds=path string "" (concrete); pre-state as c19_path_ab
+//@ props=C19 tier=quick timeout=1500 mem=16 cap=2 name=c19_set_path_empty
+//@ functions=CoapRequest::set_path
+//@ bounds=path string "" (concrete); pre-state as c19_set_path_ab
 //@ what=the empty path clears the Uri-Path values
-//@ assumes=core::str::from_utf8 replaced by the byte-loop RFC 3629 model
-c19_path!(c19_path_empty, "", "", []);
+c19_set_path!(c19_set_path_empty, "", []);
 
-//@ props=C19 tier=thorough timeout=1500 mem=16 cap=2 name=c19_path_utf8
-//@ functions=CoapRequest::set_path, CoapRequest::get_path, CoapRequest::get_path_as_vec
-//@ bounds=path string ".well-known/\u{e9}" (concrete, with a two-byte character); pre-state as c19_path_ab
-//@ what=non-ASCII segments are stored and read back byte for byte
+//@ props=C19 tier=quick timeout=1500 mem=16 cap=3 name=c19_get_path_ab
+//@ functions=CoapRequest::get_path, CoapRequest::get_path_as_vec, OptionValueString::try_from
+//@ bounds=raw Uri-Path values "a", "b" (concrete) next to a Uri-Query value with a symbolic byte
+//@ what=get_path = segments joined by '/', get_path_as_vec = the segments
 //@ assumes=core::str::from_utf8 replaced by the byte-loop RFC 3629 model
-c19_path!(c19_path_utf8, ".well-known/\u{e9}", ".well-known/\u{e9}", [".well-known", "\u{e9}"]);
+c19_get_path!(c19_get_path_ab, "a/b", ["a", "b"]);
+
+//@ props=C19 tier=thorough timeout=1800 mem=16 cap=3 name=c19_get_path_slashes
+//@ functions=CoapRequest::get_path, CoapRequest::get_path_as_vec
+//@ bounds=raw Uri-Path values "a", "", "" (concrete)
+//@ what=empty segments are kept by both getters
+//@ assumes=core::str::from_utf8 replaced by the byte-loop RFC 3629 model
+c19_get_path!(c19_get_path_slashes, "a//", ["a", "", ""]);
+
+//@ props=C19 tier=thorough timeout=1800 mem=16 cap=3 name=c19_get_path_utf8
+//@ functions=CoapRequest::get_path, CoapRequest::get_path_as_vec
+//@ bounds=raw Uri-Path values ".well-known" and a two-byte character (concrete)
+//@ what=non-ASCII segments read back byte for byte
+//@ assumes=core::str::from_utf8 replaced by the byte-loop RFC 3629 model
+c19_get_path!(c19_get_path_utf8, ".well-known/\u{e9}", [".well-known", "\u{e9}"]);
